@@ -165,8 +165,26 @@ def one(ctx, y, yh, x, family):
                      ('r2[x,y]', lf.linear_r2(x, y, cf), M.r2(y, ylc)), ('rmse[x,y]', lf.rmse(x, y, cf), M.rmse(y, ylc)),
                      ('smape[x,y]', lf.smape(x, y, cf), M.smape(y, ylc)), ('rpd[x,y]', lf.rpd(x, y, cf), M.rpd(y, ylc)),
                      ('rmspe[x,y]', lf.rmspe(x, y, cf), M.rmspe(y, ylc)), ('rmsle[x,y]', lf.rmsle(x, y, cf), M.rmsle(y, ylc))]
+            # the eps guard is a documented parameter of the ratio metrics and of their wrappers: a non-default value must reach the metric
+            for e_ in (1e-3, 0.5):
+                pairs += [(f'smape[eps={e_}]', lf.smape(x, y, cf, e_), M.smape(y, ylc, e_)), (f'smape_points[eps={e_}]', lf.smape_points(pts, cf, e_), M.smape(y, ylc, e_)),
+                          (f'rpd[eps={e_}]', lf.rpd(x, y, cf, e_), M.rpd(y, ylc, e_)), (f'rpd_points[eps={e_}]', lf.rpd_points(pts, cf, e_), M.rpd(y, ylc, e_)),
+                          (f'rmspe[eps={e_}]', lf.rmspe(x, y, cf, e_), M.rmspe(y, ylc, e_)), (f'rmspe_points[eps={e_}]', lf.rmspe_points(pts, cf, e_), M.rmspe(y, ylc, e_))]
             if not tagc:
                 pairs.append(('fit_residuals', lf.linear_fit_residuals_points(pts), M.residuals(y, ylc)))
+                pairs.append(('fit_residuals[x,y]', lf.linear_fit_residuals(x, y), M.residuals(y, ylc)))
+                pairs.append(('linear_residuals[x,y]', lf.linear_residuals(x, y, cf), M.residuals(y, ylc)))
+                # the remaining wrappers: the same line / transform through their *_points and (x, y) forms
+                b_p, m_p = lf.linear_fit_points(pts)
+                pairs += [('linear_fit_points.b', b_p, cf[0]), ('linear_fit_points.m', m_p, cf[1])]
+                tp = np.asarray(lf.linear_transform_points(pts, cf), float)
+                ft = np.asarray(lf.linear_fit_transform(x, y), float)
+                ftp = np.asarray(lf.linear_fit_transform_points(pts), float)
+                for nm_, arr_ in (('linear_transform_points', tp), ('linear_fit_transform', ft), ('linear_fit_transform_points', ftp)):
+                    if arr_.shape != np.asarray(ylc).shape or not np.array_equal(arr_, np.asarray(ylc, float)):
+                        ctx.fail('predicate', f'wrapper-{nm_}==m*x+b of the end-point fit', f'linear_fit.{nm_}', case, dict(wrapper=arr_.tolist()[:6], expected=np.asarray(ylc).tolist()[:6]))
+                if n >= 3:
+                    pairs.append(('r2_points', lf.r2_points(pts), lf.r2(x, y)))
             if n >= 3:
                 pairs.append(('r2adj', lf.linear_r2_points(pts, cf, M.R2.adjusted), M.r2(y, ylc, M.R2.adjusted)))
                 pairs.append(('r2adj[x,y]', lf.linear_r2(x, y, cf, M.R2.adjusted), M.r2(y, ylc, M.R2.adjusted)))
